@@ -191,3 +191,83 @@ M.KIND_METHODS.update({
     ("ClassDict", "__getitem__"): km_classdict_getitem,
     ("ClassDict", "__contains__"): km_classdict_contains,
 })
+
+
+# ---------------------------------------------------------------------- restriction enzymes (D-RESTR)
+M.ASSUMPTIONS["D-RESTR"] = (
+    "Bio.Restriction: is_3overhang/is_5overhang/is_blunt/is_unknown are constants of the enzyme; catalyse(seq) "
+    "(linear) returns a tuple of 1 + ncuts(enzyme, seq) fragments and raises nothing on IUPAC text; elucidate() of a "
+    "qualifying 5' cutter is site.N^a.'^'.N^k.'_'.'N'; ovhgseq = N^k")
+
+
+def _cutter_of(cls):
+    return tm.app("cutter_of", INT, cls.sym)
+
+
+def mk_cutter(st, ident):
+    o = VObj("Cutter")
+    st = st.set(o, "ident", VT(ident))
+    return st, o
+
+
+def km_cutter_flag(name):
+    def fn(ex, st, fr, self, args, kwargs):
+        ex.used_models.add("D-RESTR")
+        return [(st, "ok", VT(tm.app(name, BOOL, st.get(self, "ident").t)))]
+
+    return fn
+
+
+def km_cutter_catalyse(ex, st, fr, self, args, kwargs):
+    ex.used_models.add("D-RESTR")
+    (seq,) = args[:1]
+    text = ex.models.text(st, seq)
+    nc = tm.app("ncuts", INT, st.get(self, "ident").t, text)
+    o = VObj("FragTuple")
+    st = st.assume(tm.le(0, nc)).set(o, "len", VT(tm.add(nc, 1)))
+    return [(st, "ok", o)]
+
+
+def km_fragtuple_len(ex, st, fr, self, args, kwargs):
+    return [(st, "ok", st.get(self, "len"))]
+
+
+def km_cutter_elucidate(ex, st, fr, self, args, kwargs):
+    ex.used_models.add("D-RESTR")
+    return [(st, "ok", VT(tm.app("elucidate", STR, st.get(self, "ident").t)))]
+
+
+def kp_cutter_ovhgseq(ex, st, self):
+    return [(st, "ok", VT(tm.app("ovhgseq", STR, st.get(self, "ident").t)))]
+
+
+for _n in ("is_3overhang", "is_5overhang", "is_blunt", "is_unknown"):
+    M.KIND_METHODS[("Cutter", _n)] = km_cutter_flag(_n)
+M.KIND_METHODS[("Cutter", "catalyse")] = km_cutter_catalyse
+M.KIND_METHODS[("Cutter", "elucidate")] = km_cutter_elucidate
+M.KIND_METHODS[("FragTuple", "__len__")] = km_fragtuple_len
+M.KIND_PROPS[("Cutter", "ovhgseq")] = kp_cutter_ovhgseq
+
+
+def _instance_attr(self, ex, st, obj, attr):
+    cls = st.get(obj, "__class__")
+    if cls is not None and hasattr(cls, "sym") and attr in ("cutter", "signature"):
+        return self.class_cell(ex, st, cls, attr)
+    return None
+
+
+_orig_class_cell = MocloModels.class_cell
+
+
+def _class_cell(self, ex, st, cls, attr):
+    if hasattr(cls, "sym") and attr == "cutter":
+        st2, o = mk_cutter(st, _cutter_of(cls))
+        return [(st2, "ok", o)]
+    if hasattr(cls, "sym") and attr == "signature":
+        c = cls.sym
+        return [(st, "ok", VTuple([VT(tm.app("upsig", STR, c)), VT(tm.app("downsig", STR, c))]))]
+    return _orig_class_cell(self, ex, st, cls, attr)
+
+
+MocloModels.class_cell = _class_cell
+MocloModels.instance_attr = _instance_attr
